@@ -26,8 +26,28 @@ func validKey(key string) bool {
 		path.Clean(key) == key
 }
 
+// keyConflict reports whether storing an object at objectPath would need a
+// directory where another key's object is, or a file where the directory of
+// other keys is ("a/b" while "a" exists, or "d" while "d/x" exists). Both
+// paths are slash-separated paths inside fs; objectPath is below root. A real
+// file system refuses such a write, but afero.Fs implementations are not
+// required to (MemMapFs silently replaces the object or the directory, which
+// loses every key involved), so check first.
+func keyConflict(fs afero.Fs, root, objectPath string) bool {
+	if stat, err := fs.Stat(filepath.FromSlash(objectPath)); err == nil && stat.IsDir() {
+		return true
+	}
+	root = path.Clean(root)
+	for dir := path.Dir(objectPath); dir != root && dir != "." && dir != "/"; dir = path.Dir(dir) {
+		if stat, err := fs.Stat(filepath.FromSlash(dir)); err == nil && !stat.IsDir() {
+			return true
+		}
+	}
+	return false
+}
+
 func invalidKeyError(key string) error {
-	return gofakes3.ErrorInvalidArgument("key", key, "the file system backend cannot store a key that is not a clean relative path")
+	return gofakes3.ErrorInvalidArgument("key", key, "the file system backend cannot store this key: it is not a clean relative path, or it collides with the file or directory of another key")
 }
 
 // removeEmptyDirs removes dir and then each of its parents for as long as they
